@@ -32,13 +32,13 @@ Fixpoint gen_nilfrom (k : nat) (r0 : option (list N)) : list (string * outcome v
   | O => []
   | S k' =>
       let E := Env pf_tables pf_qto pf_qfrom pf_qto_default_panics pf_qfrom_nil_safe pf_qfrom_default_panics
-                   c24_exclusions (fun _ => r0) (gen_nilfrom k' r0) in
+                   c24_exclusions (fun _ => r0) (gen_nilfrom k' r0) pf_rawconfig_from_nil_safe in
       map (fun nt => (fst nt, apply E (CRec false false (fst nt)) (zero_rec (t_to (snd nt))))) pf_tables
   end.
 
 Definition gen_env (re_norm : list N -> option (list N)) : env :=
   Env pf_tables pf_qto pf_qfrom pf_qto_default_panics pf_qfrom_nil_safe pf_qfrom_default_panics
-      c24_exclusions re_norm (gen_nilfrom nil_depth (re_norm [])).
+      c24_exclusions re_norm (gen_nilfrom nil_depth (re_norm [])) pf_rawconfig_from_nil_safe.
 
 (** every Q kind of package query is handled by QToProto or is a named exclusion *)
 Definition qkinds_covered : bool :=
@@ -58,6 +58,11 @@ Definition c24_case_ok (c : wcase) : bool :=
   | WDom ct cf v retab => dom_b (gen_env (re_norm_of retab)) ct cf v
   | WHandlerA h req q opts retab =>
       out_eqb (handle_args (gen_env (re_norm_of retab)) handler_defaults_nil_opts h req) (Ok (VL [q; opts]))
+  | WNilQPayload pk obs retab =>
+      match lookup pk pf_qfrom with
+      | Some (_, c) => out_eqb (apply (gen_env (re_norm_of retab)) c VNil) obs
+      | None => false
+      end
   | WNilFrom n obs retab => out_eqb (nil_from (gen_env (re_norm_of retab)) n) obs
   | WHandler h req cls retab =>
       (out_class (handle (gen_env (re_norm_of retab)) ok_streamer ok_stream ok_lister
